@@ -43,6 +43,7 @@ def install(eng):
     B[_bi.round] = b_round
     B[_bi.repr] = lambda e, st, a, k, n: SV(KStr, st.fresh("repr", z3.StringSort()))
     B[_bi.range] = b_range
+    B[_bi.sorted] = b_sorted
     B[_bi.type] = lambda e, st, a, k, n: e.new_object(st, 'type')
     B[_bi.enumerate] = b_enumerate
     B[_bi.reversed] = b_reversed
@@ -622,6 +623,60 @@ def b_anyall(eng, st, args, kwargs, node, is_any):
     raise Unsupported("any/all over %s" % v.kind)
 
 
+def sorted_pos(lst_term, key_term):
+    """Library witness: the position in sorted(...)'s result of (an) element with this key."""
+    return uf("sorted_pos_" + str(key_term.sort()), z3.IntSort(), key_term.sort(), z3.IntSort())(lst_term, key_term)
+
+
+def b_sorted(eng, st, args, kwargs, node):
+    """sorted(iterable, key=f): a fresh list that is an ordered permutation of the input: every result element is an
+    input element (perm), every input element occurs in the result at position sorted_pos(result, key) (named witness),
+    and keys are non-decreasing.  Keys: int or float.  `reverse` unsupported."""
+    _use("sorted")
+    if "reverse" in kwargs:
+        raise Unsupported("sorted(reverse=...)")
+    n, getter = eng.as_sequence(st, args[0], node)
+    keyf = kwargs.get("key")
+    i, j = z3.Int("srt_i"), z3.Int("srt_j")
+
+    def key_of(sv):
+        if keyf is None:
+            return sv
+        eng.spec_mode += 1
+        try:
+            return eng.call_value(st, keyf, [sv], {}, node)
+        finally:
+            eng.spec_mode -= 1
+    e_i = getter(i)
+    ek = e_i.kind
+    out = eng.new_list(st, KList(ek), n)
+    _, e_ = eng.lnames(out.kind)
+    arr = st.fresh("sorted", z3.ArraySort(z3.IntSort(), sort_of(ek)))
+    perm = st.fresh("sortperm", z3.ArraySort(z3.IntSort(), z3.IntSort()))
+    st.heap[e_] = z3.Store(eng.harr(st, e_), out.term, arr)
+    src_at_perm = getter(perm[j])
+    k_res = key_of(SV(ek, arr[j]))
+    k_res2 = key_of(SV(ek, arr[i]))
+    k_src = key_of(e_i)
+    if k_res.kind is KInt:
+        le = k_res2.term <= k_res.term
+    elif k_res.kind is KFloat:
+        le = z3.Not(f_lt(k_res.term, k_res2.term))
+    else:
+        raise Unsupported("sorted with key kind %s" % k_res.kind)
+    inv = st.fresh("sortinv", z3.ArraySort(z3.IntSort(), z3.IntSort()))
+    eng.assume(st, qforall([j], z3.Implies(z3.And(0 <= j, j < n), z3.And(0 <= perm[j], perm[j] < n, arr[j] == src_at_perm.term,
+                                                                  inv[perm[j]] == j)), patterns=[arr[j]]))
+    eng.assume(st, qforall([i, j], z3.Implies(z3.And(0 <= i, i < j, j < n), le), patterns=[z3.MultiPattern(arr[i], arr[j])]))
+    sp = sorted_pos(out.term, k_src.term)
+    trig = [e_i.term] if e_i.term is not None else None
+    eng.assume(st, qforall([i], z3.Implies(z3.And(0 <= i, i < n), z3.And(0 <= sp, sp < n, key_of(SV(ek, arr[sp])).term == k_src.term)), patterns=trig))
+    eng.set_is_tuple(st, out, False)
+    st.ghost["last_sorted"] = out
+    st.ghost["last_sorted_heap"] = dict(st.heap)
+    return out
+
+
 def b_range(eng, st, args, kwargs, node):
     _use("range")
     xs = [eng.coerce(st, a, KInt, node).term for a in args]
@@ -844,7 +899,38 @@ def comprehension(eng, st, node, what, frame=None):
     if what == "dict":
         conds, (kx, vx) = pure_at(j)
         if g.ifs:
-            raise Unsupported("filtered dict comprehension")
+            # {k: v for k, v in d.items() if cond}: identity map with a filter -- pointwise characterisation
+            tg = g.target
+            ident = (isinstance(tg, ast.Tuple) and len(tg.elts) == 2 and all(isinstance(x, ast.Name) for x in tg.elts)
+                     and isinstance(node.key, ast.Name) and isinstance(node.value, ast.Name)
+                     and node.key.id == tg.elts[0].id and node.value.id == tg.elts[1].id
+                     and isinstance(g.iter, ast.Call) and isinstance(g.iter.func, ast.Attribute) and g.iter.func.attr == "items")
+            if not ident:
+                raise Unsupported("filtered dict comprehension")
+            srcd = eng.eval(st, g.iter.func.value)
+            if not isinstance(srcd.kind, KDict):
+                raise Unsupported("filtered dict comprehension over %s" % srcd.kind)
+            out = eng.new_dict(st, KDict(srcd.kind.k, srcd.kind.v))
+            h, v, sz = eng.dnames(out.kind)
+            hs, vs, szs = eng.dnames(srcd.kind)
+            kk = z3.Const("fdc_k", sort_of(srcd.kind.k))
+            hsrc, vsrc = eng.harr(st, hs)[srcd.term], eng.harr(st, vs)[srcd.term]
+            eng.spec_mode += 1
+            try:
+                fr.env[tg.elts[0].id] = SV(srcd.kind.k, kk)
+                fr.env[tg.elts[1].id] = SV(srcd.kind.v, vsrc[kk])
+                cond = z3.And([eng.truth(st, eng.eval(st, c)) for c in g.ifs])
+            finally:
+                eng.spec_mode -= 1
+                fr.env = dict(saved)
+            mem = st.fresh("fdch", z3.ArraySort(sort_of(srcd.kind.k), z3.BoolSort()))
+            eng.assume(st, qforall([kk], mem[kk] == z3.And(hsrc[kk], cond), patterns=[mem[kk], hsrc[kk]]))
+            cnt = st.fresh("fdcn", z3.IntSort())
+            eng.assume(st, z3.And(cnt >= 0, cnt <= eng.harr(st, szs)[srcd.term]))
+            st.heap[h] = z3.Store(eng.harr(st, h), out.term, mem)
+            st.heap[v] = z3.Store(eng.harr(st, v), out.term, vsrc)
+            st.heap[sz] = z3.Store(eng.harr(st, sz), out.term, cnt)
+            return out
         vk = vx.kind
         if isinstance(vk, KOpt) or vk is KConst or vk is KNone:
             vk = KVal
